@@ -8,7 +8,7 @@ From Coq Require Import ZArith.
 From FV Require Import Base.Bytes Base.BytesLemmas Gen.Generated Codec.Varint Codec.NV Codec.Header Codec.Bodies Codec.Vars
   Codec.ProtoProofs Parser.ReqModel Parser.ReqWire Parser.ReqTargets Parser.ReqDrive Parser.ReqRecords
   Parser.StreamModel Parser.AbsStream Parser.StreamRefine Parser.StreamInv Parser.EnvCanon
-  Async.Conn Async.ConnWrites Async.ConnTotal Async.ConnReads Async.PeerProofs Async.LogProofs Async.ReadsWTargets
+  Async.Conn Async.ConnWrites Async.ConnTotal Async.ConnReads Async.PeerProofs Async.PeerProofs2 Async.LogProofs Async.ReadsWTargets
   Async.FrameTargets.
 From Coq Require Import ZifyBool ZifyNat ZifyN.
 Ltac Zify.zify_post_hook ::= Z.div_mod_to_equations.
@@ -1070,3 +1070,106 @@ Proof.
   apply Hna, Hin.
 Qed.
 
+Theorem connection_framing : connection_framing_stmt.
+Proof.
+  intros norm maxc fuel B scripts w0 HB Wok Hlog Hnf Hs Hwk.
+  assert (R0 : recs (wlog w0)) by (rewrite Hlog; apply recs_nil).
+  assert (F1 : Forall (fscript false) scripts) by (apply fscripts_of; [exact Hs|exact Hwk|discriminate]).
+  assert (W1 : WI false w0) by (split; [exact Hnf|discriminate]).
+  pose proof (run_loop_fr maxc norm false scripts F1 fuel (new_parser B) 0%nat w0 (new_parser_ok B HB) Wok W1 R0) as H1.
+  assert (H2 : Forall no_abandoned_read scripts -> stop_at w0 = 0 -> stopped w0 = false ->
+     match run_loop norm maxc fuel (new_parser B) scripts 0 w0 with
+     | (o, w') => framed (wlog w') /\ (true = true -> o = ORet -> recs (wlog w')) end).
+  { intros Hna S1 S2.
+    apply (run_loop_fr maxc norm true scripts);
+      [apply fscripts_of; [exact Hs|exact Hwk|intros _; exact Hna]|apply new_parser_ok; exact HB|exact Wok| |exact R0].
+    split; [exact Hnf|intros _; split; assumption]. }
+  destruct (run_loop norm maxc fuel (new_parser B) scripts 0 w0) as [o w'].
+  split; [apply H1|]. intros Ho S1 S2 Hna. apply whole_recs. apply (H2 Hna S1 S2); [reflexivity|exact Ho].
+Qed.
+
+(* ------------------------------------------------------------------------------------------ *)
+(* Part E: the statement is about non-trivial runs                                              *)
+(* ------------------------------------------------------------------------------------------ *)
+
+(* (1) PeerProofs2.ex2: BeginRequest, Params, Stdin "abc", a GetValues query, then Stdin "de" and its end; the handler reads Stdin
+   to the end and writes "hi" to Stdout.  Every hypothesis of the theorem holds (those of the second conjunct included) ... *)
+Example exf_hyps :
+  64 < SIZE_LIMIT - 8 /\ world_ok (ex2_w 1) /\ wlog (ex2_w 1) = [] /\ no_fault (wscript (ex2_w 1)) /\
+  scripts_ok false ex2_scripts /\ Forall writes_known ex2_scripts /\
+  stop_at (ex2_w 1) = 0 /\ stopped (ex2_w 1) = false /\ Forall no_abandoned_read ex2_scripts.
+Proof.
+  split; [vm_compute; reflexivity|]. split; [vm_compute; repeat constructor|]. split; [reflexivity|]. split; [constructor|].
+  split.
+  { constructor; [|constructor]. intros role. apply SO_read_all. apply (SO_write false role _ 6 2 [104; 105]). apply SO_nil. }
+  split.
+  { constructor; [|constructor]. apply WK_all. apply (WK_write 6 2 [104; 105]); [reflexivity|apply WK_nil]. }
+  split; [reflexivity|]. split; [reflexivity|].
+  constructor; [|constructor]. apply NA_read_all. apply (NA_write 6 2 [104; 105]). apply NA_nil.
+Qed.
+
+(* ... the connection task returns, and its log decodes completely into five records: the GetValuesResult reply (a management
+   record, id 0), the Stdout record with "hi", the empty Stdout and Stderr records and the EndRequest of the epilogue *)
+Example exf_returns_whole :
+  let r := run_loop (fun b => b) 10 (nb (ex2_w 1) + 4) (new_parser 64) ex2_scripts 0 (ex2_w 1) in
+  fst r = ORet /\ whole (wlog (snd r)) /\ len (wlog (snd r)) = 80 /\
+  map (fun x => (fst (fst x), snd (fst x), len (snd x))) (fst (parse_records (length (wlog (snd r))) (wlog (snd r)))) =
+    [(RT_GetValuesResult, 0, 18); (RT_Stdout, 1, 2); (RT_Stdout, 1, 0); (RT_Stderr, 1, 0); (RT_EndRequest, 1, 8)].
+Proof. vm_compute. repeat split; reflexivity. Qed.
+
+(* the same by the theorem, for every normalisation function, max_conns and fuel *)
+Example exf_returns_whole_any norm maxc fuel :
+  let '(o, w') := run_loop norm maxc fuel (new_parser 64) ex2_scripts 0 (ex2_w 1) in
+  framed (wlog w') /\ (o = ORet -> whole (wlog w')).
+Proof.
+  destruct exf_hyps as (H1 & H2 & H3 & H4 & H5 & H6 & H7 & H8 & H9).
+  pose proof (connection_framing norm maxc fuel 64 ex2_scripts (ex2_w 1) H1 H2 H3 H4 H5 H6) as T.
+  destruct (run_loop norm maxc fuel (new_parser 64) ex2_scripts 0 (ex2_w 1)) as [o w'].
+  destruct T as [T1 T2]. split; [exact T1|]. intros Ho. exact (T2 Ho H7 H8 H9).
+Qed.
+
+(* (2) PeerProofs2.ex2p, known finding F6: the handler polls a read once and abandons it while Request::poll_output has written
+   3 bytes of the GetValuesResult reply, then writes through a StreamWriter.  The hypotheses of the first conjunct hold ... *)
+Example exf6_hyps :
+  64 < SIZE_LIMIT - 8 /\ world_ok ex2p_w /\ wlog ex2p_w = [] /\ no_fault (wscript ex2p_w) /\
+  scripts_ok false (ex2p_scripts 11) /\ Forall writes_known (ex2p_scripts 11) /\
+  stop_at ex2p_w = 0 /\ stopped ex2p_w = false /\ ~ Forall no_abandoned_read (ex2p_scripts 11).
+Proof.
+  split; [vm_compute; reflexivity|]. split; [vm_compute; repeat constructor|]. split; [reflexivity|].
+  split; [repeat constructor; discriminate|].
+  split.
+  { constructor; [|constructor]. intros role. apply SO_read. apply SO_poll. apply (SO_write false role _ 6 2 [104; 105; 2]).
+    apply SO_read_all. apply SO_nil. }
+  split.
+  { constructor; [|constructor]. apply WK_read. apply WK_poll. apply (WK_write 6 2 [104; 105; 2]); [reflexivity|].
+    apply WK_all. apply WK_nil. }
+  split; [reflexivity|]. split; [reflexivity|].
+  intros H. inversion H as [|x l Hx Hl]; subst. inversion Hx as [|n rest Hr| | | | | | | | |]; subst. inversion Hr.
+Qed.
+
+(* ... the task ends waiting for its own output lock (ODeadlock) with the first 3 bytes of the reply in the log: framed - it is
+   the beginning of a record, nothing of the handler's "hi" was written into the unfinished reply - but not whole *)
+Example exf6_framed_not_whole :
+  let r := run_loop (fun b => b) 10 (nb ex2p_w + 4) (new_parser 64) (ex2p_scripts 11) 0 ex2p_w in
+  fst r = ODeadlock /\ wlog (snd r) = [1; 10; 0] /\ wlog (snd r) = take 3 (write_response 1 10) /\
+  framed (wlog (snd r)) /\ ~ whole (wlog (snd r)).
+Proof.
+  cbv zeta. split; [vm_compute; reflexivity|]. split; [vm_compute; reflexivity|]. split; [vm_compute; reflexivity|]. split.
+  - exists (drop 3 (write_response 1 10)). vm_compute. reflexivity.
+  - vm_compute. discriminate.
+Qed.
+
+(* framed also by the theorem, for every normalisation function, max_conns and fuel *)
+Example exf6_framed_any norm maxc fuel :
+  framed (wlog (snd (run_loop norm maxc fuel (new_parser 64) (ex2p_scripts 11) 0 ex2p_w))).
+Proof.
+  destruct exf6_hyps as (H1 & H2 & H3 & H4 & H5 & H6 & _).
+  pose proof (connection_framing norm maxc fuel 64 (ex2p_scripts 11) ex2p_w H1 H2 H3 H4 H5 H6) as T.
+  destruct (run_loop norm maxc fuel (new_parser 64) (ex2p_scripts 11) 0 ex2p_w) as [o w']. apply T.
+Qed.
+
+Print Assumptions connection_framing.
+Print Assumptions exf_returns_whole.
+Print Assumptions exf_returns_whole_any.
+Print Assumptions exf6_framed_not_whole.
+Print Assumptions exf6_framed_any.
